@@ -409,3 +409,21 @@ def check_spec(ctx, rule, rel, qual, spec_src, reason, var=None, mutators=None):
     ctx.ob(rule, rel, qual, ("result" if var is None else var) + " == " + spec_src, ok,
            reason + f"; the code computes {txt}", f.lineno)
     return ok
+
+
+def same_expr(node, src):
+    """is the expression equal to `src` modulo the laws of canon() (comparison orientation, commutativity, ...)"""
+    return node is not None and canon(node) == spec(src)
+
+
+def contains_expr(root, src):
+    """does some sub-expression of `root` equal `src` modulo canon()"""
+    want = spec(src)
+    for n in ast.walk(root):
+        if isinstance(n, ast.expr):
+            try:
+                if canon(n) == want:
+                    return True
+            except Exception:
+                continue
+    return False
